@@ -60,7 +60,7 @@ func raceCheck(c *vlib.Check, w *dkgw.World, scratch string) {
 			var cmdErr, pktErr error
 			var start, end dkg.Status
 			var setupErr error
-			s := vrt.Run(vrt.Options{Devs: devs, Labels: labels, Start: w.At[p.base].Add(time.Second), MaxSteps: 500000, Watchdog: 30 * time.Second, Until: w.At[p.base].Add(10 * time.Minute)}, func() {
+			s := vrt.Run(vrt.Options{Devs: devs, Labels: labels, Start: w.At[p.base].Add(time.Second), MaxSteps: 500000, Watchdog: 60 * time.Second, Until: w.At[p.base].Add(10 * time.Minute)}, func() {
 				ctx := context.Background()
 				st, err := dkg.NewDKGStore(dir)
 				if err != nil {
